@@ -7,8 +7,8 @@
  *           steps of i; tk[i] = (t(k-1)[i] >> 8) ^ t0[t(k-1)[i] & 255]
  *   MODE 2  the same for crc32table_be (entries are stored byte-swapped on a
  *           little-endian host: tobe())
- *   MODE 3  ext2fs_crc32c_le(seed, buf+ALIGN, LEN) == bitwise definition, symbolic
- *           seed and data, LEN and ALIGN concrete per query (prologue / epilogue
+ *   MODE 3  ext2fs_crc32c_le(seed, buf+OFF, LEN) == bitwise definition, symbolic
+ *           seed and data, LEN and OFF concrete per query (prologue / epilogue
  *           byte steps at every alignment)
  *   MODE 4  ext2fs_crc32_be likewise
  *   MODE 5  one slice-by-8 step (8 aligned bytes), upper half: data zero, seed
@@ -27,11 +27,11 @@
 #ifndef LEN
 #define LEN 1
 #endif
-#ifndef ALIGN
-#define ALIGN 0
+#ifndef OFF
+#define OFF 0
 #endif
 
-/* BOUND: whole-function queries: LEN 0..3 bytes at ALIGN 0..7; slice queries: exactly one aligned 8-byte step */
+/* BOUND: whole-function queries: LEN 0..3 bytes at OFF 0..7; slice queries: exactly one aligned 8-byte step */
 struct vf_in {
 	__u32 seed;
 	unsigned char idx;
@@ -88,7 +88,7 @@ int main(void)
 #elif MODE == 3 || MODE == 4
 	want = IN.seed;
 	for (i = 0; i < LEN; i++) {
-		vf_buf[ALIGN + i] = IN.data[i];
+		vf_buf[OFF + i] = IN.data[i];
 #if MODE == 3
 		want = ref_le_byte(want, IN.data[i], 0x82F63B78u);
 #else
@@ -96,10 +96,10 @@ int main(void)
 #endif
 	}
 #if MODE == 3
-	got = ext2fs_crc32c_le(IN.seed, vf_buf + ALIGN, LEN);
+	got = ext2fs_crc32c_le(IN.seed, vf_buf + OFF, LEN);
 	PROP(got == want, "crc32c_le equals bitwise definition");
 #else
-	got = ext2fs_crc32_be(IN.seed, vf_buf + ALIGN, LEN);
+	got = ext2fs_crc32_be(IN.seed, vf_buf + OFF, LEN);
 	PROP(got == want, "crc32_be equals bitwise definition");
 #endif
 #elif MODE >= 5 && MODE <= 8
